@@ -35,6 +35,8 @@ type c12Case struct {
 	Order    []int      `json:"add_order"`
 	In       []byte     `json:"-"`
 	Shuffled bool       `json:"shuffled"`
+	SharedBuf bool      `json:"blobs_share_one_buffer"`
+	Layout    []int     `json:"buffer_layout"`
 }
 
 // c12Gen draws a file and a set of pairwise-disjoint patches (touching
@@ -133,6 +135,17 @@ func c12Gen(t *core.Tape) *c12Case {
 			}
 		}
 	}
+	c.SharedBuf = t.Chance(1, 3, "shared-buffer")
+	c.Layout = make([]int, len(c.Patches))
+	for i := range c.Layout {
+		c.Layout[i] = i
+	}
+	if c.SharedBuf {
+		for i := len(c.Layout) - 1; i > 0; i-- {
+			j := t.Choose(i+1, "layout")
+			c.Layout[i], c.Layout[j] = c.Layout[j], c.Layout[i]
+		}
+	}
 	c.Order = make([]int, len(c.Patches))
 	for i := range c.Order {
 		c.Order[i] = i
@@ -155,6 +168,26 @@ func min64(a, b int64) int64 {
 
 func (c *c12Case) build() *binpatch.PatchSet {
 	ps := binpatch.New()
+	if c.SharedBuf {
+		// every blob is a sub-slice of one buffer, with spare capacity behind
+		// it that belongs to the next blob (how callers that rewrite a header
+		// in place hand out their pieces); Add must treat them as read-only
+		total := 0
+		for _, p := range c.Patches {
+			total += len(p.Blob)
+		}
+		buf := make([]byte, 0, total+16)
+		offs := make([]int, len(c.Patches))
+		for _, i := range c.Layout { // the pieces lie in the buffer in any order
+			offs[i] = len(buf)
+			buf = append(buf, c.Patches[i].Blob...)
+		}
+		for _, i := range c.Order {
+			p := c.Patches[i]
+			ps.Add(p.Off, p.Old, buf[offs[i]:offs[i]+len(p.Blob)])
+		}
+		return ps
+	}
 	for _, i := range c.Order {
 		p := c.Patches[i]
 		ps.Add(p.Off, p.Old, p.Blob)
@@ -275,7 +308,7 @@ func c12Shape(c *c12Case) string {
 	case c.Len > 100:
 		lc = "mid"
 	}
-	return fmt.Sprintf("%s/%v/shuf=%v", lc, ks, c.Shuffled)
+	return fmt.Sprintf("%s/%v/shuf=%v/shared=%v", lc, ks, c.Shuffled, c.SharedBuf)
 }
 
 func c12Run(r *core.Run) {
@@ -375,12 +408,8 @@ func c12Run(r *core.Run) {
 			continue
 		}
 		bad := dump[:cut]
-		if _, err := binpatch.Load(bad); err == nil {
-			// a prefix that still parses is a different, complete patch (only
-			// possible when trailing blobs are empty); nothing to demand
-			r.Probe("truncated-still-parses")
-			continue
-		}
+		// a strict prefix always lacks bytes the headers announce (the format
+		// has no optional tail), so every one of them is a truncated patch
 		mode := core.Pick(t, "truncmode", "same", "other-present", "same+link")
 		out := c12Exec(root, mode, c.In, nil, bytes.NewReader(bad))
 		r.Evals++
